@@ -1,6 +1,7 @@
 package checks
 
 import (
+	"bytes"
 	"context"
 	"encoding/binary"
 	"fmt"
@@ -668,6 +669,44 @@ func runC12(c *core.Ctx) {
 						c.Violate("C12/reuse/passed-over", fmt.Sprintf("call %d (data length %d, target %d): nonce %d in an earlier block strictly qualifies, %d was returned", round, q.l, q.t, n, nonce), cas, "", nil)
 						break
 					}
+				}
+			}
+		}
+	}
+	// the caller builds every message in the SAME buffer (same backing array, same length, other content; spare capacity
+	// behind it) - on one Worker, and on a new Worker per call (package-level memory): a result remembered for "this slice"
+	// must not be trusted once its content has changed
+	for _, mode := range []string{"one Worker", "a new Worker per call"} {
+		for _, workers := range []int{1, 3} {
+			w := powv2.New(workers)
+			store := bytes.Repeat([]byte{0xEE}, 64)
+			buf := store[5:16]
+			t := uint64(6561 / 19)
+			for round, fill := range []byte{1, 2, 1, 3, 3, 0, 1} {
+				for i := range buf {
+					buf[i] = fill*17 + byte(i)*fill
+				}
+				want := append([]byte{}, store...)
+				if mode != "one Worker" {
+					w = powv2.New(workers)
+				}
+				var nonce uint64
+				var err error
+				p := core.Catch(func() { nonce, err = w.Mine(context.Background(), buf, t) })
+				c.Eval(1)
+				nontriv.Add(1)
+				cas := map[string]interface{}{"mode": mode, "workers": workers, "call": round, "data": fmt.Sprintf("%x", buf), "target": t}
+				if p != nil || err != nil {
+					c.Violate("C12/same-buffer/error", fmt.Sprintf("call %d: %v %v", round, p, err), cas, "", nil)
+					break
+				}
+				if !bytes.Equal(store, want) {
+					c.Violate("C12/same-buffer/data-modified", fmt.Sprintf("call %d: Mine wrote to the caller's buffer", round), cas, "", nil)
+					break
+				}
+				if sc := refScoreV2FromHash(refPowHashV2(buf, nonce), len(buf)+8); sc < t {
+					c.Violate("C12/same-buffer/unsound", fmt.Sprintf("%s, %d goroutines, call %d: the message was built in the buffer of the previous call (same length, content %x); Mine returned nonce %d with score %d < target %d", mode, workers, round, buf, nonce, sc, t), cas, "", nil)
+					break
 				}
 			}
 		}
